@@ -4,7 +4,12 @@ SPEC = {
     "theorem_modules": ["GluonModel.Theorems.C06"],
     "correspondences": [],
     "oracles": [
-        # whole server + script connector; the Lean judge judge-c06-stream is the oracle (VERIF_DRIVER)
+        # whole server + script connector; the Lean judge judge-c06-stream is the oracle (VERIF_DRIVER).
+        # Order: corpus/C06/*.txt, then one directed stream per update kind (every reachable cell of the
+        # kind x variant table), then -n random streams (+ -limn under small limits). Every acknowledgement is
+        # under its own watchdog (-ackwatch, 3s): a server that does not acknowledge (or panics) is abandoned
+        # at that step, reported with the connector steps up to and including that update, and the next stream
+        # starts; after -watchbudget (10) abandoned servers no further stream is started (bounded run).
         {"name": "c06updates", "quick_args": ["-n", "110", "-steps", "40", "-limn", "30"], "thorough_args": ["-n", "2200", "-steps", "60", "-limn", "500"], "timeout": 2400},
     ],
     "trusted_base": [
@@ -12,15 +17,15 @@ SPEC = {
         "hand-written model GluonModel/Model/ConnUpdates.lean of internal/backend/connector_updates.go (user.apply, every apply*), of the update loop in internal/backend/user.go and of imap/update_waiter.go over an abstract relational index; tied to the real server by oracle c06updates: after every update the acknowledged result and a dump of the SQLite index are compared with the model, at check points also the wire view of a fresh session (differential testing, not proof)",
         "executable property predicates GluonModel/Spec/ConnUpdates.lean (Valid / effectOK / Restates / Invalid / Inv), proved of the model and evaluated by the judge on the server's answers",
         "facts translator harness/facts_ack.go (go/ast): Done call sites, shape of user.apply and of the update loop, waiter body, table expression of UpdateRemoteMessageID",
-        "harness connector harness/conn_script.go (public connector.Connector; pushes only scripted updates), read-only SQLite access to the user's index file for internal ids and dumps, verif barrier hook (VerifBarrier)",
+        "harness connector harness/conn_script.go (public connector.Connector; pushes only scripted updates, waits for every acknowledgement under a watchdog and then checks that the waiter is closed and empty), read-only SQLite access to the user's index file for internal ids and dumps, verif barrier hook (VerifBarrier), the server's panic handler (a second Done on imap's one-shot waiter panics in the goroutine applying updates: that is how 'acknowledged twice' is observed for the real update types)",
     ],
     "assumptions": [
         "the SQL layer is abstracted to the constraints that matter here (UNIQUE keys, AUTOINCREMENT, NOT NULL/FOREIGN KEY of the per-mailbox tables); storage faults are not injected (C07/C08)",
         "message literals are abstracted to tags (equal tag = equal bytes); parsing failures of literals are not modelled",
-        "flags are lower-cased names; \\Recent is not modelled; the order of state updates across different mailboxes (Go map order) is not modelled",
+        "flags are lower-cased names; \\Recent is not modelled; the order of state updates across different mailboxes (Go map order) is not modelled; the map order of applyMessagesCreated's last loop is covered by C06.messagesCreated_map_order (same index and same success for every order; the acknowledged error is one of mscPossibleErrs, and the judge accepts exactly those)",
         "sessions end only at quiescent points in the oracle (every observer has issued NOOP after the last change), so removeState's HasMessage filter sees snapshots equal to the index",
         "client commands in the streams are not modelled: after each one the judge continues from the observed index (echo updates are then judged against that state)",
     ],
     "explanation": "Lean theorems over the model for all update sequences (exactly one Done per update and the loop continues, with the loop/Done shape regenerated from the source and decided) and for all index states and updates of each kind (described effect, idempotence of restating updates, no effect of unknown/protected ids); the model and the property predicates are checked against the real server on generated update streams with replays, echoes, invalid updates and client commands.",
-    "rule": "evaluations = update streams run against a real server; non-trivial = streams in which the judge evaluated at least one update; per-kind counts of valid / restating / invalid updates are in input_distribution",
+    "rule": "evaluations = update streams run against a real server; non-trivial = streams in which the judge evaluated at least one update; per-kind counts of valid / restating / invalid updates are in input_distribution; table.<Kind>.<variant> = how often the judge saw an update of that kind in that variant (valid | unknown-id | protected-id = GLUON-INTERNAL-RECOVERY-MBOX | protected-name = 'Recovered Messages' | duplicate = delivered again right away | restating), judged on the index the update met; only cells reachable through the public connector API are listed (table.cells-reachable) and table.cells-zero must be 0; pipe.valid-after-refused.<Kind> = valid updates sent right after a refused update of that kind (all must be applied and acknowledged)",
 }
